@@ -36,7 +36,7 @@ CHECKS["C01"] = dict(
          "Model tied to /repo by structural (sqlglot normal form of compile() text == printed plan) and behavioural (DuckDB rows == Plan.eval) correspondence on generated triples; "
          "real rows are compared with the Lean spec on every case; a broken correspondence triggers a directed search over adversarial tables.",
     design_ref="DESIGN.md §4 C01",
-    note="Trusted: Lean kernel + standard axioms; hand-written Sql semantics (validated against DuckDB per case, not proved); genSingle transcription (tied by differential testing); "
+    note="Also searched on the real code: measures declared only as SQL text AGG(expr) over engine operators vs that text evaluated directly. Trusted: Lean kernel + standard axioms; hand-written Sql semantics (validated against DuckDB per case, not proved); genSingle transcription (tied by differential testing); "
          "ungrouped branch, ORDER BY total-preorder property and metric-value (HAVING) filters are covered by correspondence + spec comparison only; data hypothesis PkOK (key expression non-NULL and injective). "
          "Known findings F1/F20/F21 listed in known_findings.json.",
     technique="Lean 4 proof (fusion of CTE projection into aggregation, all table contents) + structural/behavioural correspondence + spec oracle",
@@ -58,7 +58,7 @@ CHECKS["C04"] = dict(
          "the CTE's pushed-down WHERE is exactly the spec's row filter (pushdown soundness, via C01_grouped); a segment is its defining predicate; metric-level filters only change that metric (groups independent of the metric list; CASE WHEN inside the raw column); "
          "metric-value filters are applied to the aggregated rows (generalised fusion theorem with HAVING). Tie: C01 arms on filter/segment-heavy cases; metamorphic variants (conjunction/list, permuted, segment/predicate, with/without filtered companion) on the real code.",
     design_ref="DESIGN.md §4 C04",
-    note="Filters on joined models (LEFT→INNER switch) are handled under C02/C03, not here. Quote-splitting loop abstracted by the AST model (hostile literals exercised by correspondence). One genuine defect found and fixed (parentheses lost by flatten()).",
+    note="Also searched: same-named, identically written segments on several joined models through one reused generator vs their predicates as filters. Filters on joined models (LEFT→INNER switch) are handled under C02/C03, not here. Quote-splitting loop abstracted by the AST model (hostile literals exercised by correspondence). One genuine defect found and fixed (parentheses lost by flatten()).",
     technique="Lean 4 proof (plan equality, fusion with HAVING, spec invariance) + correspondence + metamorphic variants on DuckDB",
 )
 
@@ -69,7 +69,7 @@ CHECKS["C06"] = dict(
          "an inlined component is the SQL the same metric has when selected directly, fill included (C06_nested_is_direct, via fuel monotonicity); own-model-first resolution and its proved exception (graph-level metric shadows, F7). "
          "Tie: compile() SQL vs Lean genC structurally on generated formula trees x collision-prone naming schemes x decoy models registered first; oracle on real DuckDB rows: composite = formula over the layer's own component columns in exact rationals.",
     design_ref="DESIGN.md §4 C06",
-    note="Textual regex substitution is modelled as tree substitution; captures show up as structural mismatches. Cross-model composites (with joins) only through the d26ec00 regression; two genuine defects fixed (d26ec00, e773629), two recorded (F7, F29).",
+    note="Also searched: two related models with field-identical composites, in one query and in consecutive queries on one generator. Textual regex substitution is modelled as tree substitution; captures show up as structural mismatches. Cross-model composites (with joins) only through the d26ec00 regression; two genuine defects fixed (d26ec00, e773629), two recorded (F7, F29).",
     technique="Lean 4 proof (structural induction on formula trees, fuel monotonicity) + structural correspondence + exact-rational oracle on DuckDB rows",
 )
 
@@ -78,10 +78,10 @@ CHECKS["C08"] = dict(
     text="Lean 4: (1) matcher soundness on the model of PreAggregationMatcher/_try_use_preaggregation (Layer/Routing.lean): whenever `route` picks a rollup the query is grouped, all non-time dimensions and filter columns are rollup columns, "
          "every measure is listed, unfiltered and decomposable, and EVERY requested granularity belongs to the rollup's time dimension and is accepted by the regenerated compatibility table (C08_route_sound, C08_canSatisfy_sound, C08_derivable_sound, C08_time_key_factors via C09); "
          "(2) re-aggregation is exact for every table, bucket key, outer key factoring through it and bucket-key filter: partition permutation, commutative-monoid folds, two-level = one-level grouping (Proofs/Reagg.lean; C08_sum/count/min/max_from_rollup), AVG-of-bucket-averages refuted (F9). "
-         "(3) end to end on the relational evaluator (Proofs/RoutedGlue.lean): for a rollup with a time key and stored dimensions (C08_matQuery_has_shape), a requested granularity accepted by the regenerated table or the rollup's own, and any subset of the stored dimensions, the rows the evaluator returns for the routed statement over the rows it returns for the materialization are a permutation of the base-table statement's rows, for EVERY table (C08_routed_rows_are_base_rows_sum_partial/_count_partial; column lookups proved from alias distinctness). "
+         "(3) end to end on the relational evaluator (Proofs/RoutedGlue.lean): for a rollup with a time key and stored dimensions (C08_matQuery_has_shape), a requested granularity accepted by the regenerated table or the rollup's own, and any subset of the stored dimensions, the rows the evaluator returns for the routed statement over the rows it returns for the materialization are a permutation of the base-table statement's rows, for EVERY table (C08_routed_rows_are_base_rows_sum_partial/_count_partial, their _filtered_ versions and _min/_max_filtered_partial for numeric measures, with a WHERE clause over stored bare-column dimensions; column lookups proved from alias distinctness, filters through Expr.eval_congr; C08_routedQuery_has_shape ties the key list to routedQuery). "
          "Tie: generate_materialization_sql vs matQuery, routing decision vs route, routed SQL vs routedQuery (structural) and rollup/routed rows vs the Lean evaluators (behavioural). Search: the layer's own rollups, routed vs unrouted compile() on the same DuckDB database.",
     design_ref="DESIGN.md §4 C08",
-    note="Partial: the end-to-end theorem covers one SUM/COUNT measure per statement without a WHERE clause (filters: matcher theorems + correspondence); the routed statement's key list is tied to routedQuery by decide on the example and by the structural correspondence; MIN/MAX theorem for numeric measures. Nine genuine defects fixed, three recorded (F9 AVG, F31 time filter alignment, F33 time dimension as plain dimension).",
+    note="Partial: the end-to-end theorems cover one SUM/COUNT/MIN/MAX measure per statement, one requested granularity and filters over stored bare-column dimensions; time-column filters, expression dimensions and several granularities stay with the matcher theorems + correspondence; MIN/MAX theorem for numeric measures. Nine genuine defects fixed, three recorded (F9 AVG, F31 time filter alignment, F33 time dimension as plain dimension).",
     technique="Lean 4 proof (matcher soundness, re-aggregation algebra over all partitions, glue through the relational evaluator) + structural/behavioural correspondence + routed-vs-unrouted oracle on DuckDB",
 )
 
@@ -93,7 +93,7 @@ CHECKS["C17"] = dict(
          "and the offset table REGENERATED from _calculate_lag_offset is calendar-exact on the month/quarter/year and day/week cells (decide over the table), with a proved counterexample for the fixed-row-count cells (F34). "
          "Tie: window clauses + final expressions of compile() vs cumWindow/lagWindow/calcExpr (structural), outer rows vs WinExpr.evalRow over the real inner rows (behavioural). Search: calendar-arithmetic reference from the raw rows.",
     design_ref="DESIGN.md §4 C17",
-    note="Conversion metrics and raw window_expression passthrough are not modelled; the inner aggregate is C01's subject. Two genuine defects fixed (F15, F19), one recorded (F34).",
+    note="Aggregation variants are generated for running, trailing-window and grain-to-date metrics. Conversion metrics and raw window_expression passthrough are not modelled; the inner aggregate is C01's subject. Two genuine defects fixed (F15, F19), one recorded (F34).",
     technique="Lean 4 proof (positional = declarative window semantics, partition locality, decide over the regenerated offset table) + structural/behavioural correspondence + calendar reference oracle",
 )
 
@@ -125,7 +125,7 @@ CHECKS["C05"] = dict(
          "JOIN / QUALIFY / non-literal LIMIT are rejected, SQL over non-model tables is passed through. Tie: the argument tuple the real rewriter hands to SQLGenerator.generate (captured by wrapping its generator object from outside) and the dispatch kind vs extractSimple/dispatch on the same statement. "
          "Search: layer.sql(text) rows and column names vs the structured query for 6 renderings of each generated query (incl. FROM metrics, CTE and sub-select wrappers), a battery of unsupported constructs, equivalent spellings and non-semantic SQL.",
     design_ref="DESIGN.md §4 C05",
-    note="The CTE/sub-select path, multi-model SQL and Yardstick syntax are covered by the end-to-end arm only; sqlglot's parser is trusted. Two genuine defects fixed (was F6).",
+    note="Also searched: SELECT * next to same-named / other fields of a joined model vs the structured query. The CTE/sub-select path, multi-model SQL and Yardstick syntax are covered by the end-to-end arm only; sqlglot's parser is trusted. Two genuine defects fixed (was F6).",
     technique="Lean 4 proof (extraction round trip incl. string-split lemmas, rejection theorems) + tuple-level correspondence + end-to-end differential on DuckDB",
 )
 
@@ -165,7 +165,7 @@ CHECKS["C19"] = dict(
          "i.e. returns its serial result; obligation C19_code_is_safe (decide) ties the theorem to the shared-access program extracted from semantic_graph.py by an AST translator on every run (fail-closed on any other write to self.* on the query path); "
          "proved counterexample schedule for the original in-place rebuild (repaired by fix b035043). Tie: controlled schedules (sys.settrace baton scheduler) on the real code: 2 threads x 1-2 pre-emptions at source lines, 3 threads, find_relationship_path and compile(): results equal serial results.",
     design_ref="DESIGN.md §4 C19",
-    note="Assumes CPython GIL atomicity of single dict/attribute operations; adjacency values are abstract (built vs stale); the thread pool of server/connection.py (riffq, not installed) is not exercised; only semantic_graph.py carries shared planning state (scanned by the translator).",
+    note="The translator counts a write to the local dict after its publication as a shared write; after a break a three-pre-emption search runs on junction graphs. Assumes CPython GIL atomicity of single dict/attribute operations; adjacency values are abstract (built vs stale); the thread pool of server/connection.py (riffq, not installed) is not exercised; only semantic_graph.py carries shared planning state (scanned by the translator).",
     technique="Lean 4 proof (invariant + induction over arbitrary schedules) over translator-regenerated access program + controlled-schedule correspondence",
 )
 
@@ -195,7 +195,7 @@ CHECKS["C11"] = dict(
          "(all metric type parameters, filters, fill_nulls_with incl. 0, keys, relationship fields incl. through-keys, segments, pre-aggregations incl. refresh keys, parameters, default time dimension, graph-level agg) survives export→parse; field-wise ⇒ record-wise lemma for all records. "
          "Tie: random layers over the full vocabulary with YAML-sensitive strings → to_yaml → from_yaml: model_dump of every object, a 12-query compile battery and pre-aggregation routing identical; Python/YAML/SQL-definition-syntax parity.",
     design_ref="DESIGN.md §4 C11",
-    note="The Lean part is a finite table obligation (translator by evaluation) plus a generic lemma; field-wise independence of export/parse and PyYAML identity are assumptions exercised by the whole-layer round trips. The token re-assembly of the SQL definition syntax (_parse_property) is covered by the parity correspondence only. Two genuine defects fixed in /repo.",
+    note="Parity arm covers quoted literals that look like numbers, booleans or null (field values and compiled SQL). The Lean part is a finite table obligation (translator by evaluation) plus a generic lemma; field-wise independence of export/parse and PyYAML identity are assumptions exercised by the whole-layer round trips. The token re-assembly of the SQL definition syntax (_parse_property) is covered by the parity correspondence only. Two genuine defects fixed in /repo.",
     technique="Lean 4 decide over translator-regenerated field table + whole-layer round-trip correspondence",
 )
 
@@ -206,7 +206,7 @@ CHECKS["C02"] = dict(
          "a join onto a unique key never multiplies rows; declaring the relationship on either side gives the same edges; unsupported aggregations are rejected. Negations: NULL measure term (F2), plain SUM under fan-out (F3). "
          "Tie: SQLGenerator vs the Lean multi-model generator genJoin (structural + behavioural) on generated forests; real rows vs reference semantics; directed search after a break.",
     design_ref="DESIGN.md §4 C02",
-    note="Partial: the end-to-end statement (plan rows = reference rows for all data) is proved per aggregate over an arbitrary group, not composed through the join evaluator; MIN/MAX/COUNT DISTINCT and multi-hop/junction paths are covered by correspondence + spec oracle. Known findings F2/F3/F26.",
+    note="Also searched on the real code: metrics of two models in one query vs each alone, on forests incl. two parents of one child. Partial: the end-to-end statement (plan rows = reference rows for all data) is proved per aggregate over an arbitrary group, not composed through the join evaluator; MIN/MAX/COUNT DISTINCT and multi-hop/junction paths are covered by correspondence + spec oracle. Known findings F2/F3/F26.",
     technique="Lean 4 proof (dedup-by-key representatives, rational arithmetic, integer separation lemma) + structural/behavioural correspondence + distinct-row oracle",
 )
 
@@ -216,7 +216,7 @@ CHECKS["C03"] = dict(
          "keyed FULL OUTER JOIN lemmas (groups = union of the groups, one row per group, each carrying the single queries' values or NULL); proved negation for filters (a filter on one metric model is not shared, F4b). "
          "Tie: SQLGenerator vs Lean needsPreagg/genPreagg/genJoin (decision, structural incl. nested CTEs, behavioural). Search: the property's own relation on the real code — joint rows vs the NULL-safe outer union of the per-metric-model queries.",
     design_ref="DESIGN.md §4 C03",
-    note="Partial: the theorem for sub-queries requires q.filters = []; the row-level fullOuter evaluator is related to the abstract keyed outer-union lemmas only by correspondence; 3+ metric models joined on the first sub-query's columns are not generated. Known findings F4, F4b, F27, F28 and the C02 findings apply.",
+    note="Metric-value filters are inside the outer-union oracle (applied to the joint rows). Partial: the theorem for sub-queries requires q.filters = []; the row-level fullOuter evaluator is related to the abstract keyed outer-union lemmas only by correspondence; 3+ metric models joined on the first sub-query's columns are not generated. Known findings F4, F4b, F27, F28 and the C02 findings apply.",
     technique="Lean 4 proof (plan equality of sub-queries, keyed outer-union lemmas) + correspondence + metamorphic joint-vs-single oracle on DuckDB",
 )
 
